@@ -19,7 +19,8 @@ import (
 // worker is the per-process state of an isolated worker
 type worker struct {
 	jf        *os.File
-	caseStart atomic.Int64 // process CPU time (ns) at the start of the current case
+	caseStart atomic.Int64 // CPU time (ns) of the worker's main thread when the library was last entered from it (-1: not inside)
+	mainTid   int          // the worker's main goroutine is pinned to this thread
 	casePos   atomic.Int64
 	caseIdx   atomic.Int64
 	caseWall  atomic.Int64 // unix nanos at case start
@@ -118,13 +119,33 @@ func (w *worker) watchdog(memLimit uint64) {
 		// order matters: the CPU clock is read BEFORE the start mark. Read the other way round, a monitor goroutine that
 		// is descheduled between the two reads (load average of 100 on 16 cores: for seconds) would charge everything
 		// the worker did in the meantime - many later cases - to the case whose mark it had loaded
-		nowCPU := cpuNow()
-		start := w.caseStart.Load()
-		if start < 0 {
-			continue
+		nowCPU := threadCPU(w.mainTid)
+		if !threadClock {
+			nowCPU = cpuNow()
 		}
-		if used := nowCPU - start; used > int64(w.budget) && w.caseStart.Load() == start {
+		start := w.caseStart.Load()
+		used := int64(0)
+		if start >= 0 && nowCPU >= 0 && nowCPU-start > int64(w.budget) && w.caseStart.Load() == start {
+			used = nowCPU - start // library code running on the worker's own thread (in-process checks)
+		} else {
+			used = overBudget(int64(w.budget)) // library code running on a goroutine of its own (drive.Run)
+		}
+		if used > 0 {
 			fmt.Fprintf(os.Stderr, "BUDGET pos=%d index=%d cpu_ms=%d\n", w.casePos.Load(), w.caseIdx.Load(), used/1e6)
+			// where the time went: CPU classes of the runtime and the stacks of all goroutines
+			cs := []metrics.Sample{{Name: "/cpu/classes/gc/total:cpu-seconds"}, {Name: "/cpu/classes/gc/mark/idle:cpu-seconds"}, {Name: "/cpu/classes/user:cpu-seconds"}, {Name: "/cpu/classes/total:cpu-seconds"}, {Name: "/gc/cycles/total:gc-cycles"}, {Name: "/sched/gomaxprocs:threads"}}
+			metrics.Read(cs)
+			for _, x := range cs {
+				switch x.Value.Kind() {
+				case metrics.KindFloat64:
+					fmt.Fprintf(os.Stderr, "  %s = %.3f\n", x.Name, x.Value.Float64())
+				case metrics.KindUint64:
+					fmt.Fprintf(os.Stderr, "  %s = %d\n", x.Name, x.Value.Uint64())
+				}
+			}
+			fmt.Fprintf(os.Stderr, "  process cpu now %d ms, wall since case start %d ms\n", cpuNow()/1e6, (time.Now().UnixNano()-w.caseWall.Load())/1e6)
+			buf := make([]byte, 1<<20)
+			os.Stderr.Write(buf[:runtime.Stack(buf, true)])
 			os.Exit(3)
 		}
 		metrics.Read(sample)
@@ -209,7 +230,14 @@ func WorkerMain(args []string) int {
 		return 64
 	}
 	debug.SetMaxStack(64 << 20)
-	w := &worker{budget: ck.BudgetCPU}
+	// the cases run on this goroutine: pin it, so that "library code entered from the worker's main goroutine" has a
+	// thread CPU clock of its own
+	runtime.LockOSThread()
+	w := &worker{budget: ck.BudgetCPU, mainTid: syscall.Gettid()}
+	if !ck.Race {
+		threadClock = true
+		runtime.GOMAXPROCS(4) // one case at a time: no use for 16 Ps, whose idle GC workers only add to the machine's load
+	}
 	if w.budget == 0 {
 		w.budget = 5 * time.Second
 	}
